@@ -385,7 +385,7 @@ func functionalFailures(c *core.Ctx, runs []*childRun, rerun func(job c17drv.Job
 				c.Broken("phase %s hit an environment limit, not a property violation: %s", phase, envProblem)
 				continue
 			}
-			if phase == "handshake_seq" {
+			if phase == "handshake_seq" || phase == "manager_seq" {
 				c.Broken("sequential baseline handshakes fail (driver or environment problem): %v", kinds)
 				continue
 			}
@@ -410,8 +410,11 @@ func functionalFailures(c *core.Ctx, runs []*childRun, rerun func(job c17drv.Job
 				continue
 			}
 			action := "SharedConfigHandshakes"
-			if phase == "duplex" {
+			switch phase {
+			case "duplex":
 				action = "DuplexStream"
+			case "manager":
+				action = "SharedManagerHandshakes"
 			}
 			ks := make([]string, 0, len(kinds))
 			for k := range kinds {
@@ -490,7 +493,7 @@ func run(c *core.Ctx) {
 	if want("net") {
 		var njobs []c17drv.Job
 		for i, p := range procs {
-			njobs = append(njobs, c17drv.Job{Phases: []string{"handshake_seq", "handshake", "duplex"}, Seed: seed*37 + int64(i), Procs: p, Yield: i%2 == 0, Clients: clients, Iters: iters, Conns: conns})
+			njobs = append(njobs, c17drv.Job{Phases: []string{"handshake_seq", "handshake", "manager_seq", "manager", "duplex"}, Seed: seed*37 + int64(i), Procs: p, Yield: i%2 == 0, Clients: clients, Iters: iters, Conns: conns})
 		}
 		netwg.Add(1)
 		go func() { defer netwg.Done(); netRuns = runChildren(c, njobs, 2) }()
@@ -555,7 +558,7 @@ func run(c *core.Ctx) {
 	if c.IsBroken() {
 		return
 	}
-	var cacheOps, handshakes, resumed, fresh, msgs int64
+	var cacheOps, handshakes, resumed, fresh, msgs, mgrHandshakes, mgrEncrypted int64
 	usedProcs := map[int]bool{}
 	for _, cr := range runs {
 		if cr.err != nil {
@@ -574,6 +577,13 @@ func run(c *core.Ctx) {
 			c.Eval("pair/"+k+"/"+strconv.Itoa(cr.job.Procs), true)
 		}
 		for ph, st := range cr.res.Net {
+			if ph == "manager" || ph == "manager_seq" {
+				// one shared SecurityManager per side; Resumed counts the encrypted outcomes here
+				mgrHandshakes += st.Handshakes
+				mgrEncrypted += st.Resumed
+				c.Eval(fmt.Sprintf("net/%s/%d/%v", ph, cr.job.Procs, cr.job.Yield), ph != "manager_seq")
+				continue
+			}
 			handshakes += st.Handshakes
 			resumed += st.Resumed
 			fresh += st.Fresh
@@ -590,7 +600,10 @@ func run(c *core.Ctx) {
 		return
 	}
 	if !want("net") {
-		handshakes, resumed, fresh, msgs = 1, 1, 1, 1
+		handshakes, resumed, fresh, msgs, mgrHandshakes, mgrEncrypted = 1, 1, 1, 1, 1, 1
+	}
+	if mgrHandshakes == 0 || mgrEncrypted == 0 {
+		c.Broken("SecurityManager handshake stress is vacuous: %d handshakes, %d ended encrypted", mgrHandshakes, mgrEncrypted)
 	}
 	if handshakes == 0 || resumed == 0 || fresh == 0 {
 		c.Broken("handshake stress is vacuous: %d handshakes, %d resumed, %d fresh", handshakes, resumed, fresh)
@@ -624,6 +637,8 @@ func run(c *core.Ctx) {
 	c.Set("cache_ops_under_race_detector", cacheOps)
 	c.Set("handshakes_sharing_one_config", handshakes)
 	c.Set("handshakes_resumed", resumed)
+	c.Set("handshakes_through_shared_security_managers", mgrHandshakes)
+	c.Set("handshakes_through_shared_security_managers_encrypted", mgrEncrypted)
 	c.Set("handshakes_fresh", fresh)
 	c.Set("duplex_messages", msgs)
 	pl := make([]int, 0, len(usedProcs))
@@ -633,6 +648,6 @@ func run(c *core.Ctx) {
 	sort.Ints(pl)
 	c.Set("gomaxprocs", pl)
 	c.Set("rule", "model: every interleaving of the critical-section steps of 3 goroutines x <=2 cache operations over 2 ids (TLC, invariants LocksetDiscipline, NoTornExpiry, NoLostInvalidate, RefinesSeq, Linearizable); "+
-		"binding: every conflicting operation pair of the model (generated by TLC) hammered on the real cache, plus seeded random stress, many clients sharing one SecurityConfig and one cache against one real server (fresh and resuming), and simultaneous send/receive on established streams, all in race-enabled child processes at several GOMAXPROCS with injected yields; "+
+		"binding: every conflicting operation pair of the model (generated by TLC) hammered on the real cache, plus seeded random stress, many clients sharing one SecurityConfig and one cache against one real server (fresh and resuming), overlapping handshakes through one shared SecurityManager per side (sm.ServerHandshake / sm.ClientHandshake, encrypted echo), and simultaneous send/receive on established streams, all in race-enabled child processes at several GOMAXPROCS with injected yields; "+
 		"each distinct pair of racing cedar functions in the race log is one failure; evaluations = pair hammers + stress runs + network phases + recorded histories; every recorded call/return history (<= ~32 operations, <= 4 goroutines, quiescent post-condition reads included) is validated by TLC against the sequential cache specification as a linearizability search")
 }
